@@ -6,6 +6,7 @@ import (
 	"context"
 	"fmt"
 	"net"
+	"os"
 	"net/netip"
 	"runtime"
 	"sort"
@@ -245,6 +246,8 @@ type histT struct {
 	capGen   map[string]int
 	capHad   map[string]bool
 	cuts     map[string]*orec
+	origins  map[string]*orec // (piece, mark) -> the admission a record originates from (never deleted)
+	shown    map[string]int64 // (holder, piece, mark) -> smallest TTL shown so far
 }
 
 var hist *histT
@@ -264,7 +267,8 @@ func histNew(f []string) vlib.Res {
 	cfg.ECS = config.ECSConfig{Enabled: true, ForwardV4Max: 24, ForwardV6Max: 56, MinScopeV4: 24, MinScopeV6: 56,
 		ClientNetworks: []string{"198.51.100.0/24"}, CacheLimitTTL: config.Duration{Duration: time.Duration(capS) * time.Second}}
 	h := &histT{ecsCap: capS, known: map[slotKey]*cache.CacheEntry{}, led: map[slotKey]*orec{}, gens: map[slotKey]int{},
-		captured: map[string]*cache.CacheEntry{}, capGen: map[string]int{}, capHad: map[string]bool{}, cuts: map[string]*orec{}}
+		captured: map[string]*cache.CacheEntry{}, capGen: map[string]int{}, capHad: map[string]bool{}, cuts: map[string]*orec{},
+		origins: map[string]*orec{}, shown: map[string]int64{}}
 	h.up = &upstream{script: map[string]*specT{}, calls: map[string]int{}}
 	reg := middleware.NewRegistry()
 	reg.Register("edns", func(c *config.Config) middleware.Handler { return edns.New(c) })
@@ -400,7 +404,7 @@ func replyRecs(qtok string, m *dns.Msg) []recTok {
 
 // tokens: `n0:299 n1:120 n1~120` — per piece the distinct TTLs of its
 // answer records, then per piece those of its authority/additional records.
-func tokens(recs []recTok) string {
+func tokens(recs []recTok, fresh map[string]int) string {
 	var order []string
 	sets := map[string]map[int64]bool{}
 	for _, pass := range []bool{false, true} {
@@ -416,7 +420,11 @@ func tokens(recs []recTok) string {
 				sets[k] = map[int64]bool{}
 				order = append(order, k)
 			}
-			sets[k][r.ttl] = true
+			if fresh[r.tok] > 0 && r.tok[0] == 'n' {
+				sets[k][-1] = true
+			} else {
+				sets[k][r.ttl] = true
+			}
 		}
 	}
 	var parts []string
@@ -428,7 +436,11 @@ func tokens(recs []recTok) string {
 		sort.Slice(v, func(a, b int) bool { return v[a] < v[b] })
 		var s []string
 		for _, t := range v {
-			s = append(s, strconv.FormatInt(t, 10))
+			if t < 0 {
+				s = append(s, "*")
+			} else {
+				s = append(s, strconv.FormatInt(t, 10))
+			}
 		}
 		parts = append(parts, k+strings.Join(s, "/"))
 	}
@@ -492,76 +504,136 @@ func fail(sig, format string, a ...any) string {
 	return "FAIL sig=" + sig + " " + fmt.Sprintf(format, a...)
 }
 
+// originOf: the admission a served record comes from.  Records carry the
+// mark of the upstream answer they were admitted with; an alias entry may
+// hold copies of its target's authority records, so the origin is looked up
+// by (piece, mark), not by which entry currently sits in the piece's slot.
+func (h *histT) originOf(r recTok, freshCalls map[string]int) (*orec, bool) {
+	if r.tok[0] == 'd' {
+		return h.cuts[r.tok], false
+	}
+	if freshCalls[r.tok] > 0 {
+		return nil, true
+	}
+	if r.mark >= 0 {
+		return h.origins[fmt.Sprintf("%s#%d", r.tok, r.mark)], false
+	}
+	for _, sc := range []bool{false, true} {
+		if c := h.led[slotKey{r.tok, sc}]; c != nil {
+			return c, false
+		}
+	}
+	return nil, false
+}
+
 // judgeReply: the oracle for the records of one reply that came out of the
 // cache (pieces that were fetched from the upstream in this very op are
 // relayed, not cached, and are skipped).
-func (h *histT) judgeReply(recs []recTok, freshCalls map[string]int) string {
+func (h *histT) judgeReply(qtok string, recs []recTok, freshCalls map[string]int) string {
 	verdict := ""
 	note := func(v string) {
 		if verdict == "" {
 			verdict = v
 		}
 	}
+	// which stored thing answered: monotonicity is per stored entry
+	holder := qtok + fmt.Sprintf("#%p", h.known[slotKey{qtok, false}])
+	for _, r := range recs {
+		if r.tok == qtok && r.mark >= 0 {
+			holder = fmt.Sprintf("%s#%d", qtok, r.mark)
+			break
+		}
+	}
+	type seenT struct {
+		key string
+		ttl int64
+	}
+	var seen []seenT
+	if qtok[0] == 'u' {
+		if o := h.cuts["d"+qtok[1:]]; o != nil {
+			holder = fmt.Sprintf("%s#cut%d", qtok, o.gen)
+		}
+	}
+	order := chainOrder(recs)
 	for _, r := range recs {
 		if strings.HasPrefix(r.tok, "?") {
 			note(fail("c/hit/unattributable-record", "%s", r.tok))
 			continue
 		}
-		var o *orec
-		if r.tok[0] == 'd' {
-			o = h.cuts[r.tok]
-		} else {
-			if freshCalls[r.tok] > 0 {
-				continue
-			}
-			for _, sc := range []bool{true, false} {
-				c := h.led[slotKey{r.tok, sc}]
-				if c != nil && (r.mark < 0 || c.mark == r.mark) {
-					o = c
+		o, fresh := h.originOf(r, freshCalls)
+		if fresh {
+			continue
+		}
+		if o == nil {
+			note(fail("c/hit/served-without-an-admission", "piece=%s mark=%d", r.tok, r.mark))
+			continue
+		}
+		// An alias entry keeps a copy of the authority records its chase
+		// merged in; such a copy lives and dies with the alias entry (whose
+		// own lifetime is bounded by every cached piece it consumed).  So an
+		// authority record may be justified by its origin or by a cached
+		// alias piece that precedes it in the chain.  VERIF_C04_STRICT=1
+		// judges it by its origin alone (see notes/C04.md, candidate finding).
+		cands := []*orec{o}
+		if r.ns && !strictCopies {
+			for _, p := range order {
+				if p == r.tok {
 					break
+				}
+				if freshCalls[p] == 0 && p[0] == 'n' {
+					if c := h.led[slotKey{p, false}]; c != nil {
+						cands = append(cands, c)
+					}
 				}
 			}
 		}
-		if o == nil {
-			note(fail("c/hit/served-without-a-live-admission", "piece=%s mark=%d (purged, replaced or never admitted)", r.tok, r.mark))
-			continue
+		best := cands[0]
+		for _, c := range cands[1:] {
+			if c.admitV+c.life > best.admitV+best.life {
+				best = c
+			}
 		}
-		end := o.admitV + o.life
+		end := best.admitV + best.life
 		if h.V >= end {
-			note(fail("c/hit/served-past-lifetime/"+o.lim, "piece=%s at=%ds admitted=%ds lifetime=%ds", r.tok, h.V, o.admitV, o.life))
+			note(fail("c/hit/served-past-lifetime/"+best.lim, "piece=%s at=%ds admitted=%ds lifetime=%ds", r.tok, h.V, best.admitV, best.life))
 			continue
 		}
 		if r.ttl > end-h.V-1 {
-			note(fail("c/hit/shown-ttl-exceeds-remaining/"+o.lim, "piece=%s shown=%d remaining<%ds", r.tok, r.ttl, end-h.V))
+			note(fail("c/hit/shown-ttl-exceeds-remaining/"+best.lim, "piece=%s shown=%d remaining<%ds", r.tok, r.ttl, end-h.V))
 		}
-		if o.lastShown >= 0 && r.ttl > o.lastShown {
-			note(fail("c/hit/shown-ttl-grew", "piece=%s shown=%d earlier=%d", r.tok, r.ttl, o.lastShown))
+		key := fmt.Sprintf("%s|%s#%d", holder, r.tok, r.mark)
+		if last, ok := h.shown[key]; ok && r.ttl > last {
+			note(fail("c/hit/shown-ttl-grew", "piece=%s shown=%d earlier=%d", r.tok, r.ttl, last))
 		}
+		seen = append(seen, seenT{key, r.ttl})
 	}
-	// record what was shown (after judging the whole reply: several records
-	// of one entry legitimately carry the same TTL)
-	for _, r := range recs {
-		var o *orec
-		if r.tok[0] == 'd' {
-			o = h.cuts[r.tok]
-		} else if freshCalls[r.tok] == 0 {
-			for _, sc := range []bool{true, false} {
-				c := h.led[slotKey{r.tok, sc}]
-				if c != nil && (r.mark < 0 || c.mark == r.mark) {
-					o = c
-					break
-				}
-			}
-		}
-		if o != nil && (o.lastShown < 0 || r.ttl < o.lastShown) {
-			o.lastShown = r.ttl
+	for _, sn := range seen {
+		if last, ok := h.shown[sn.key]; !ok || sn.ttl < last {
+			h.shown[sn.key] = sn.ttl
 		}
 	}
 	return verdict
 }
 
-// chainAfter: the pieces that follow tok in the composed reply (answer
-// order, then authority-only pieces).
+var strictCopies = os.Getenv("VERIF_C04_STRICT") != ""
+
+// chainOrder: the pieces of a composed reply in chain order (answer order,
+// then authority-only pieces).
+func chainOrder(recs []recTok) []string {
+	var order []string
+	seen := map[string]bool{}
+	for _, pass := range []bool{false, true} {
+		for _, r := range recs {
+			if r.ns == pass && !seen[r.tok] {
+				seen[r.tok] = true
+				order = append(order, r.tok)
+			}
+		}
+	}
+	return order
+}
+
+// chainAfter: the pieces that follow tok in the composed reply.
 func chainAfter(recs []recTok, tok string) []string {
 	var order []string
 	seen := map[string]bool{}
@@ -606,17 +678,17 @@ func (h *histT) register(chs []change, script map[string]*specT, recs []recTok, 
 				if freshCalls[t] > 0 || t[0] != 'n' {
 					continue
 				}
-				for _, sc := range []bool{true, false} {
-					if p := h.led[slotKey{t, sc}]; p != nil {
-						if rem := p.admitV + p.life - h.V; rem < life {
-							life, lim = rem, "piece-"+t
-						}
-						break
+				// sub-queries see the shared slot only
+				if p := h.led[slotKey{t, false}]; p != nil {
+					if rem := p.admitV + p.life - h.V; rem < life {
+						life, lim = rem, "piece-"+t
 					}
 				}
 			}
 		}
-		h.led[c.k] = &orec{gen: h.gens[c.k], admitV: h.V, life: life, lim: lim, lastShown: -1, mark: sp.mark}
+		o := &orec{gen: h.gens[c.k], admitV: h.V, life: life, lim: lim, lastShown: -1, mark: sp.mark}
+		h.led[c.k] = o
+		h.origins[fmt.Sprintf("%s#%d", c.k.tok, sp.mark)] = o
 		// admission bound: the stored lifetime may not exceed the permitted one
 		got := ceilSec(c.view.TTL)
 		if !c.view.CutUntil.IsZero() {
@@ -698,7 +770,9 @@ func (h *histT) query(route, tok string, ecs, do bool, up string) vlib.Res {
 	waitRoom()
 	h.sync()
 	h.up.base = time.Now().Unix()
+	f0, c0, k0 := cache.VerifC04Counters()
 	reply := h.run(route, mkReq(tok, ecs, do))
+	f1, c1, k1 := cache.VerifC04Counters()
 	calls := h.up.calls
 	chs := h.changes()
 	var recs []recTok
@@ -709,14 +783,14 @@ func (h *histT) query(route, tok string, ecs, do bool, up string) vlib.Res {
 			head = "fwd"
 		} else {
 			head = "hit"
-			if t := tokens(recs); t != "" {
+			if t := tokens(recs, calls); t != "" {
 				head += " " + t
 			}
 		}
 	}
 	or := ""
 	if head != "miss" {
-		or = h.judgeReply(recs, calls)
+		or = h.judgeReply(tok, recs, calls)
 	}
 	if v := h.register(chs, script, recs, calls, false); or == "" {
 		or = v
@@ -726,6 +800,16 @@ func (h *histT) query(route, tok string, ecs, do bool, up string) vlib.Res {
 	}
 	// tags
 	tags := []string{"r=" + route}
+	switch {
+	case f1 > f0:
+		tags = append(tags, "via=bytes")
+	case c1 > c0:
+		tags = append(tags, "via=wirechase")
+	case k1 > k0:
+		tags = append(tags, "via=wirecut")
+	case strings.HasPrefix(head, "hit"):
+		tags = append(tags, "via=msg")
+	}
 	nt := false
 	cached := 0
 	pieces := map[string]bool{}
@@ -885,6 +969,7 @@ func (h *histT) cutrec(k, itemS, leaseS string) vlib.Res {
 	if got > life {
 		or = fail("c/cutrec/outlives-"+lim, "stored=%ds permitted=%ds", got, life)
 	}
-	h.cuts[tok] = &orec{admitV: h.V, life: life, lim: lim, lastShown: -1, mark: -1}
+	h.marks++
+	h.cuts[tok] = &orec{gen: h.marks, admitV: h.V, life: life, lim: lim, lastShown: -1, mark: -1}
 	return vlib.Res{Impl: fmt.Sprintf("t exp=%d", got), Oracle: or, Tags: "nt,lim=" + lim}
 }
